@@ -357,7 +357,9 @@ func c19Matrix(f func(admitted, fallback bool, handler string)) {
 }
 
 var c19Bools = []bool{true, false}
-var c19Handlers = []string{"ok", "err", "panic"}
+// "errtyped": the handler fails with the framework's own error type carrying a client-error status (where the
+// framework has one; elsewhere it is a second plain failure)
+var c19Handlers = []string{"ok", "err", "panic", "errtyped"}
 
 func c19Name(ep string, admitted, fallback bool, handler string) string {
 	if c19PairTag != "" {
@@ -404,6 +406,8 @@ func c19EchoCase(t *testing.T, admitted, fallback bool, handler string) {
 	e.GET("/c19", func(ctx echo.Context) error {
 		c.handlerCalled()
 		switch handler {
+		case "errtyped":
+			return echo.NewHTTPError(http.StatusBadRequest, "c19 typed handler error")
 		case "err":
 			return errors.New("c19 handler error")
 		case "panic":
